@@ -604,8 +604,10 @@ def main(argv):
         'wall_s': round(time.time() - t0, 2),
         'violations': len(new_viol) if rc == 1 else 0,
     }
-    os.makedirs(os.path.join(VERIF, 'evidence'), exist_ok=True)
-    json.dump(ev, open(os.path.join(VERIF, 'evidence', f'{prop}.json'), 'w'), indent=1)
+    # evidence/ describes /repo itself; runs against a scratch copy (VERIF_REPO, self-tests) write elsewhere
+    evdir = os.path.join(VERIF, 'evidence') if REPO == '/repo' else os.path.join(WORK, 'evidence-scratch')
+    os.makedirs(evdir, exist_ok=True)
+    json.dump(ev, open(os.path.join(evdir, f'{prop}.json'), 'w'), indent=1)
     for ln in lines_out:
         print(ln)
     if rc == 0:
